@@ -154,7 +154,13 @@ Lemma keys_clone : forall es, keys (clone_kb B es) = keys es.
 Proof. intros. apply keys_map. reflexivity. Qed.
 
 Lemma reload_kb_ok : forall n es, kb_ok n es -> kb_ok n (reload_kb B es).
-Proof. intros. apply kb_ok_map; [intros x; simpl; repeat split; auto; discriminate|assumption]. Qed.
+Proof.
+  intros n es (H1 & H2). split.
+  - unfold keys, reload_kb in *. rewrite map_map. erewrite map_ext; [exact H1|]. intros x. reflexivity.
+  - unfold reload_kb. rewrite Forall_map. eapply Forall_impl; [|exact H2].
+    intros x (A1 & A2 & A3). unfold entry_ok, le_key, le_deleted in *. simpl. split; auto. split; auto.
+    intros Hd. apply negb_true_iff in Hd. rewrite <- A1. exact Hd.
+Qed.
 Lemma keys_reload : forall es, keys (reload_kb B es) = keys es.
 Proof. intros. apply keys_map. reflexivity. Qed.
 
@@ -1006,9 +1012,9 @@ Proof.
   intros s k (Hl & _). unfold lib_kb. destruct (alookup k (st_lib s)) eqn:E; [eapply Hl; eauto|]. intros x [].
 Qed.
 
-Theorem step_clean : forall s o, clean s -> op_user B F o = true -> op_safe B F s o = true -> clean (fst (step s o)).
+Theorem step_clean : forall s o, wf_state s -> clean s -> op_user B F o = true -> clean (fst (step s o)).
 Proof.
-  intros s o Hc Hu Hs. destruct o as [k rs|k n|i n|k|k|i fuel f]; simpl.
+  intros s o Hwf Hc Hu. destruct o as [k rs|k n|i n|k|k|i fuel f]; simpl.
   - destruct (build_kb B rs (lib_kb B s k)) as [es' err] eqn:Eb. simpl. apply clean_update_lib; auto.
     replace es' with (fst (build_kb B rs (lib_kb B s k))) by (rewrite Eb; reflexivity).
     apply kb_clean_build; auto. apply lib_kb_clean; auto.
@@ -1019,9 +1025,11 @@ Proof.
   - destruct (alookup k (st_lib s)) as [es|] eqn:E; simpl; auto. destruct Hc as (Hl & Hi). split; simpl; auto.
     apply Forall_app. split; auto. constructor; [|constructor]. simpl. apply kb_clean_map; [|eapply Hl; eauto].
     intros x. split; reflexivity.
-  - apply clean_update_lib; auto. simpl in Hs. rewrite forallb_forall in Hs.
-    pose proof (lib_kb_clean s k Hc) as Hk. intros x Hx Hux. unfold reload_kb in Hx. apply in_map_iff in Hx.
-    destruct Hx as (y & <- & Hy). simpl in Hux. specialize (Hk y Hy Hux). specialize (Hs y Hy). rewrite Hk in Hs. discriminate.
+  - (* store+load: the flag comes back from the tombstone name *)
+    apply clean_update_lib; auto.
+    pose proof (lib_kb_ok s k Hwf) as (_ & Hall). rewrite Forall_forall in Hall.
+    intros x Hx Hux. unfold reload_kb in Hx. apply in_map_iff in Hx. destruct Hx as (y & <- & Hy).
+    destruct (Hall y Hy) as (En & _). unfold le_key, le_deleted in *. simpl in *. rewrite En, Hux. reflexivity.
   - destruct (nth_error (st_insts s) i) as [ins|] eqn:E; simpl; auto.
     destruct (exec_kb fuel f (i_kb ins) (st_next s)) as [[[es' next'] tr] fin] eqn:Ex. simpl.
     destruct Hc as (Hl & Hi). split; simpl; auto. apply Forall_set_nth; auto. simpl.
@@ -1032,14 +1040,28 @@ Qed.
 Lemma init_clean : clean (init B).
 Proof. split; simpl; [intros k es E; discriminate|constructor]. Qed.
 
-(* for histories that never store a knowledge base holding a removed rule: in every reachable state every entry that was
-   ever removed (it carries a tombstone name) is out of force — in the library, after store+load, and on every instance *)
-Theorem removed_rules_stay_removed_partial : forall ops s,
-  clean s -> ops_user ops -> safe_history B F holds self zap order s ops = true -> clean (run ops s).
+(* in every reachable state every entry that was ever removed (it carries a tombstone name) is out of force: in the
+   library, after any number of store+load round trips, and on every instance *)
+Theorem removed_rules_stay_removed_from : forall ops s,
+  wf_state s -> clean s -> ops_user ops -> clean (run ops s).
 Proof.
-  induction ops as [|o ops IH]; simpl; intros s Hc Hu Hs; auto.
-  inversion Hu; subst. apply andb_true_iff in Hs. destruct Hs as (Hs1 & Hs2).
-  apply IH; auto. apply step_clean; auto.
+  induction ops as [|o ops IH]; simpl; intros s Hwf Hc Hu; auto.
+  inversion Hu; subst. apply IH; auto.
+  - apply step_wf; auto.
+  - apply step_clean; auto.
+Qed.
+
+Theorem removed_rules_stay_removed : forall ops, ops_user ops -> clean (run ops (init B)).
+Proof. intros. apply removed_rules_stay_removed_from; auto. apply init_wf. apply init_clean. Qed.
+
+(* store+load of a knowledge base of a reachable state gives back every entry with its Deleted flag: it is a clone *)
+Theorem reload_is_clone : forall n es, kb_ok n es -> kb_clean es -> reload_kb B es = clone_kb B es.
+Proof.
+  intros n es (_ & Hall) Hc. unfold reload_kb, clone_kb. apply map_ext_in. intros x Hx.
+  rewrite Forall_forall in Hall. destruct (Hall x Hx) as (En & _ & Hd). f_equal.
+  unfold le_key in *. rewrite En. destruct (is_user (e_key (le_e x))) eqn:U; simpl.
+  - destruct (le_deleted x) eqn:D; auto. specialize (Hd eq_refl). congruence.
+  - symmetry. apply Hc; auto.
 Qed.
 
 (* in a clean state, what is in force are user-named rules only *)
@@ -1053,47 +1075,26 @@ Qed.
 End LibProofs.
 
 (* ------------------------------------------------------------------ *)
-(* statements the faithful model refutes (recorded findings), with witnesses *)
+(* the former witness of D8 (remove, store, load), now on the repaired model *)
 Section Witnesses.
 Let wholds (_ _ : unit) : bool := true.
 Let wself (_ : unit) : string := "A"%string.
 Let wzap (_ : unit) : option string := None.
 Let worder (_ : nat) (es : kb unit) : kb unit := es.
-Let wstep := step unit unit wholds wself wzap worder.
 Let wrun := run unit unit wholds wself wzap worder.
 Let rA : rule unit := {| r_name := "A"%string; r_sal := 1%Z; r_body := tt |}.
 Let rB : rule unit := {| r_name := "B"%string; r_sal := 2%Z; r_body := tt |}.
 Let K : string := "KB:1"%string.
 
-(* D8: "a removed rule is never in force again" — build A, remove A, store and load: the tombstone is in force *)
-Definition removed_rules_stay_removed_statement : Prop :=
-  forall ops, ops_user unit unit ops -> clean unit (wrun ops (init unit)).
-
-Definition d8_history : list (op unit unit) := [OBuild K [rA]; ORemoveLib K "A"%string; OStoreLoad K].
+Definition d8_history : list (op unit unit) :=
+  [OBuild K [rA; rB]; ORemoveLib K "A"%string; OStoreLoad K; OStoreLoad K; OBuild K [rA]; OStoreLoad K].
 Definition d8_state : state unit := Eval vm_compute in wrun d8_history (init unit).
-Definition d8_entry : lentry unit := Eval vm_compute in hd (mk_entry unit rA) (lib_kb unit d8_state K).
 
-Theorem removed_rules_stay_removed_refuted : ~ removed_rules_stay_removed_statement.
-Proof.
-  intros H. specialize (H d8_history). assert (Hu : ops_user unit unit d8_history) by (repeat constructor).
-  specialize (H Hu). change (wrun d8_history (init unit)) with d8_state in H. destruct H as (Hl & _).
-  specialize (Hl K [d8_entry] eq_refl d8_entry (or_introl eq_refl) eq_refl). discriminate Hl.
-Qed.
-
-(* the resurrected tombstone is evaluated and fired by a fresh instance of the loaded knowledge base *)
-Example d8_fires : exists tr fin fetched,
-  probe_lib unit unit wholds wself wzap worder 5 tt d8_state K = Some (tr, fin, fetched) /\ fetched = [tomb 0].
-Proof. eexists. eexists. eexists. split; vm_compute; reflexivity. Qed.
-
-(* a non-trivial history inside the side condition of the partial theorem: duplicates, removal, re-build, store+load of
-   another key and of the same key before the removal, instances, execution *)
-Definition safe_example : list (op unit unit) :=
-  [OBuild K [rA; rB]; OStoreLoad K; ONewInst K; OBuild K [rA]; ORemoveLib K "A"%string; OBuild K [rA];
-   OBuild "Other:1"%string [rB]; OStoreLoad "Other:1"%string; ONewInst K; ORemoveInst 0 "B"%string; OExec 1 5 tt].
-
-Example safe_example_ok :
-  safe_history unit unit wholds wself wzap worder (init unit) safe_example = true /\ ops_user unit unit safe_example.
-Proof. split; [vm_compute; reflexivity|repeat constructor]. Qed.
+(* after remove, store, load, store, load, re-build, store, load: a fresh instance fetches the new A and B, not the tombstone *)
+Example d8_witness_stays_removed : exists tr fin,
+  probe_lib unit unit wholds wself wzap worder 5 tt d8_state K = Some (tr, fin, ["B"%string; "A"%string]) /\
+  map (fun x => (le_key x, le_deleted x)) (lib_kb unit d8_state K) = [(tomb 0, true); ("B"%string, false); ("A"%string, false)].
+Proof. eexists. eexists. split; vm_compute; reflexivity. Qed.
 
 End Witnesses.
 
@@ -1151,7 +1152,7 @@ Definition C16_only_rules_in_force_statement : Prop :=
   (forall f es k, In k (fetch_kb B F holds f es) -> In k (live B es)).
 
 (* 4. "or, when removed from the library, on every instance created afterwards, including after the library's knowledge
-      base is stored and loaded" — name level: holds across store+load *)
+      base is stored and loaded" — at the level of the name (the rule level is C16_removed_rules) *)
 Definition C16_removed_from_library_statement : Prop :=
   order_ok -> forall ops s k n, wf_state B s -> ops_user B F ops -> is_user n = true ->
   existsb (builds_name B F k n) ops = false ->
@@ -1161,9 +1162,13 @@ Definition C16_removed_from_library_statement : Prop :=
   (forall s3 ops', step s2 (ONewInst k) = (s3, RInst true) ->
      exists ins, nth_error (st_insts (run ops' s3)) (List.length (st_insts s2)) = Some ins /\ ~ In n (live B (i_kb ins))).
 
-(*    rule level: the removed entry itself (it carries a tombstone name) stays out of force — partial (D8) *)
-Definition C16_removed_rules_partial_statement : Prop :=
-  forall ops s, clean B s -> ops_user B F ops -> safe_history B F holds self zap order s ops = true -> clean B (run ops s).
+(*    rule level: the removed entry itself (it carries a tombstone name) stays out of force in every reachable state, after
+      any number of store+load round trips; and store+load of a reachable knowledge base is a clone (flags included) *)
+Definition C16_removed_rules_statement : Prop :=
+  order_ok ->
+  (forall ops, ops_user B F ops -> clean B (run ops (init B))) /\
+  (forall ops s, wf_state B s -> clean B s -> ops_user B F ops -> clean B (run ops s)) /\
+  (forall n es, kb_ok B n es -> kb_clean B es -> reload_kb B es = clone_kb B es).
 
 (* 5. "and its name can be reused by a newly built rule, which behaves per its own text" *)
 Definition C16_rebuild_statement : Prop :=
@@ -1194,8 +1199,13 @@ Proof.
 Qed.
 Theorem C16_removed_from_library_proved : C16_removed_from_library_statement.
 Proof. exact (removed_from_library B F holds self zap order). Qed.
-Theorem C16_removed_rules_partial_proved : C16_removed_rules_partial_statement.
-Proof. exact (removed_rules_stay_removed_partial B F holds self zap order). Qed.
+Theorem C16_removed_rules_proved : C16_removed_rules_statement.
+Proof.
+  intros Ho. split; [|split].
+  - exact (removed_rules_stay_removed B F holds self zap order Ho).
+  - exact (removed_rules_stay_removed_from B F holds self zap order Ho).
+  - exact (reload_is_clone B).
+Qed.
 Theorem C16_rebuild_proved : C16_rebuild_statement.
 Proof. exact (rebuild_after_remove B F holds self zap order). Qed.
 Theorem C16_frame_proved : C16_frame_statement.
